@@ -4,6 +4,7 @@ import ProductMD.Model.TreeInfoText
 import ProductMD.Proofs.TextOKDecide
 import ProductMD.Proofs.C17Legacy
 import ProductMD.Proofs.C17LegacySame
+import ProductMD.Proofs.C17RelPaths
 import ProductMD.Proofs.TreeInfoDecEq
 import ProductMD.Proofs.C05WitnessTI
 /-!
@@ -235,8 +236,10 @@ structure LegacyOK (t : TreeInfo) (key : Str) : Prop where
   arch : compatSec t.tree.arch = false
   /-- the RHEL 5 addon table does not apply (it invents children `Cluster`, `VT`, … for `Server` / `Client`) -/
   rhel5 : Legacy.rhel5Addons (legacyCtx t) key [] = []
-  /-- no absolute path: the 0.0 `_fix_path` cuts those -/
-  rel : RelPaths t
+  /-- `instimage` is not an absolute path: the 0.0 `_fix_path` cuts those (`C17_legacy_absolute_instimage_cut`).  Checksum
+  paths, image paths and `mainimage` need no such condition: the writer's own `validate()` refuses absolute ones
+  (`relPaths_of_written`, from the generated validators). -/
+  instimage : ∀ p, t.instimage = some p → RelPath p
 
 /-- on the written document itself -/
 theorem C17_legacy_reader_doc_partial (fo : FloatOracle) (t : TreeInfo) (mv : Option Str) (d : Ini) (n n' : Int) (key : Str)
@@ -255,7 +258,7 @@ theorem C17_legacy_reader_doc_partial (fo : FloatOracle) (t : TreeInfo) (mv : Op
   have e3 : chosen0 = chosen := by have := w.hchosen; rw [hch] at this; injection this with this; exact this.symm
   subst e3
   exact legacy_of_view fo t mv d d n0 n' key0 chosen0 w w.view hfl hok.key_ne hok.key_dashless hok.arch hok.rhel5 hcs himg
-    hok.rel (fun _ => trivial) (fun _ _ => trivial) hvr hv
+    (relPaths_of_written (serialize_valid h) hok.instimage) (fun _ => trivial) (fun _ _ => trivial) hvr hv
 
 /-- **C17, the pre-productmd reader (partial).**  The bytes `dumps()` returns, read by the INI reader model, restricted to
 the compatibility sections and handed to the 0.0 reader, yield `legacyTree`.  Hypotheses: the text-level ones of
@@ -294,7 +297,7 @@ theorem C17_legacy_reader_partial (sp : Char → Bool) (hsp : IniParse.SpOK sp) 
     · rw [render_eq_canon d w.view.noDefault]
       exact IniParse.parse_render_dropComments hsp hh hs _ hnl hrep
     · refine legacy_of_view fo t mv d (readDoc d) n0 n' key0 chosen0 w (view_readDoc w.view) hfl hok.key_ne hok.key_dashless
-        hok.arch hok.rhel5 hcs himg hok.rel ?_ ?_ hvr hv
+        hok.arch hok.rhel5 hcs himg (relPaths_of_written (serialize_valid hser) hok.instimage) ?_ ?_ hvr hv
       · intro _ kv hkv
         rw [checksumOpts_eq _ hcs.1] at hkv
         obtain ⟨c, hc, rfl⟩ := List.mem_map.mp hkv
@@ -354,7 +357,7 @@ theorem C17_legacy_zero_timestamp_refused :
      | .error _ => false) = true := by decide +kernel
 
 example : LegacyOK C17_wZero "Server".toList :=
-  ⟨by decide, by decide, by decide +kernel, by decide +kernel, ⟨by simp [C17_wZero], by simp [C17_wZero], by simp [C17_wZero], by simp [C17_wZero]⟩⟩
+  ⟨by decide, by decide, by decide +kernel, by decide +kernel, by simp [C17_wZero]⟩
 
 /-- a main variant designated by a dashed path (a child): `dump` accepts it, `[general] variant = Server-HA`, and the 0.0
 reader refuses the tree (id `HA` ≠ uid `Server-HA` in a variant without parent) -/
@@ -374,6 +377,16 @@ theorem C17_legacy_dashed_refused :
     (match serialize C17_exTree' (some "Server-HA".toList) with
      | .ok d => (opt d sGeneral tVariant == some "Server-HA".toList) &&
                 (match Legacy.deserialize intOracle (compatDoc d) with | .error .valueError => true | _ => false)
+     | .error _ => false) = true := by decide +kernel
+
+/-- an absolute `instimage` (the one path the writer does not validate) is written as it stands and the 0.0 reader cuts it
+after the first `/os/`: it sees `images/install.img` where the tree says `/mnt/os/images/install.img` -/
+theorem C17_legacy_absolute_instimage_cut :
+    (match serialize { C17_exTree' with instimage := some "/mnt/os/images/install.img".toList } none with
+     | .ok d => (opt d sStage2 kInstimage == some "/mnt/os/images/install.img".toList) &&
+                (match Legacy.deserialize intOracle (compatDoc d) with
+                 | .ok lt => lt.instimage == some "images/install.img".toList
+                 | _ => false)
      | .error _ => false) = true := by decide +kernel
 
 /-! ### non-vacuity: a `src` tree with a nested addon, only source paths, media -/
@@ -412,9 +425,7 @@ example : (serialize C17_exTree' none).toOption.map (fun d => Legacy.deserialize
         (.mk "Client".toList "Client".toList "Client".toList "Client".toList "variant".toList
           [("packages".toList, "Client/Packages".toList), ("repository".toList, "Client".toList)] []))) := by decide +kernel
 example : LegacyOK C17_exTree' "Client".toList :=
-  ⟨by decide, by decide, by decide +kernel, by decide +kernel,
-    ⟨by simp [C17_exTree', RelPath, Str.startsWith, List.isPrefixOf], by simp [C17_exTree', RelPath, Str.startsWith, List.isPrefixOf],
-     by simp [C17_exTree', RelPath, Str.startsWith, List.isPrefixOf], by simp [C17_exTree']⟩⟩
+  ⟨by decide, by decide, by decide +kernel, by decide +kernel, by simp [C17_exTree']⟩
 example : (legacyTree C17_exTree' 1417653911 "Client".toList
         (.mk "Client".toList "Client".toList "Client".toList "Client".toList "variant".toList
           [("packages".toList, "Client/Packages".toList), ("repository".toList, "Client".toList)] [])).variants
